@@ -29,6 +29,6 @@ def run(rep, tier, seed):
     D.run_static(rep, "C11", ("clock", "purity"))
     D.run_contracts(rep, "C11", D.c11(), tier)
     # "with no limit the result is optimal": the whole-search contracts of complete greedy (shared with C02)
-    D.run_contracts(rep, "C11", [("contracts.exact", n) for n in ("cg_difference", "cg_minmax", "cg_maxmin")], tier, also=("C02",), only_tagged=True)
+    D.run_contracts(rep, "C11", [("contracts.exact", n) for n in ("cg_difference", "cg_minmax", "cg_maxmin")], "lite" if tier == "quick" else tier, also=("C02",), only_tagged=True)
     t3(rep, tier, seed)
     D.link_falsifier(rep)
